@@ -272,6 +272,48 @@ def callCfun2 (c : Cfg) (k : Kind) (cfun : String) (a0 a1 : Val) : Res Val :=
          | _ => .err .nomethod)
     | _ => .err .nomethod
 
+/-- The loop of OPMETHOD / DIVMETHOD / DIVMETHOD_SIGNED over `argv[1..]`: `box` is updated operand by operand; an error
+    (operand does not convert, division by zero) or undefined operation ends the call; `DIVZERO_mod` *returns* the box
+    computed so far. -/
+def methodLoop (k : Kind) (stepOp : Int → Int → Res Int) (zeroReturns : Bool) : Int → List Val → Res Int
+  | box, [] => .ok box
+  | box, v :: rest =>
+    match unwrap k v with
+    | .ok b =>
+      if zeroReturns && b = 0 then .ok box
+      else
+        (match stepOp box b with
+         | .ok box' => methodLoop k stepOp zeroReturns box' rest
+         | .err e => .err e
+         | .ub => .ub)
+    | .err e => .err e
+    | .ub => .ub
+
+/-- Call `cfun_it_<cfun>` with any number of arguments (`janet_arity(argc, 2, -1)` for the three looping macros,
+    `janet_fixarity` for everything else). -/
+def callCfunN (c : Cfg) (k : Kind) (cfun : String) (args : List Val) : Res Val :=
+  match args with
+  | [a0, a1] => callCfun2 c k cfun a0 a1
+  | a0 :: a1 :: rest =>
+    (match lookupInstance cfun with
+     | some (mac, kd, name, oper) =>
+       if kd != kindName k then .err .nomethod else
+       match mac with
+       | "OPMETHOD" => do
+           let a ← unwrap k a0
+           let r ← methodLoop k (opMethod k oper) false a (a1 :: rest); pure (Val.box k r)
+       | "DIVMETHOD" => do
+           let a ← unwrap k a0
+           let zr := (match name with | "div" => !divzeroErrorsDiv | "rem" => !divzeroErrorsRem | _ => !divzeroErrorsMod)
+           let r ← methodLoop k (divMethodU name oper) zr a (a1 :: rest); pure (Val.box k r)
+       | "DIVMETHOD_SIGNED" => do
+           let a ← unwrap k a0
+           let zr := (match name with | "div" => !divzeroErrorsDiv | "rem" => !divzeroErrorsRem | _ => !divzeroErrorsMod)
+           let r ← methodLoop k (divMethodS c.guardDiv name oper) zr a (a1 :: rest); pure (Val.box k r)
+       | _ => .err .arity
+     | none => .err .arity)
+  | _ => .err .arity
+
 /-- one-argument call (only `~`) -/
 def callCfun1 (k : Kind) (cfun : String) (a0 : Val) : Res Val :=
   match lookupInstance cfun with
@@ -305,9 +347,41 @@ def mcall (c : Cfg) (name : String) (x y : Val) : Res Val :=
 
 /-! ## the VM's operator opcodes -/
 
-/-- IEEE arithmetic on two numbers (bit patterns), supplied by the driver -/
+/-- IEEE primitives on bit patterns, supplied by the driver (Lean `Float` = the hardware; `fmod` computed exactly).
+    Nothing is proved *about* them; the theorems about plain-number operators (Props/C14, section "plain numbers")
+    are about how the VM handlers below combine them, under named assumptions. -/
 structure NumOps where
-  arith : String → Nat → Nat → Nat     -- "+" "-" "*" "/" "div" "mod" "%"
+  add : Nat → Nat → Nat
+  sub : Nat → Nat → Nat
+  mul : Nat → Nat → Nat
+  div : Nat → Nat → Nat
+  floor : Nat → Nat
+  fmod : Nat → Nat → Nat
+
+/-- C `x2 == 0` on a double: +0.0 or -0.0 -/
+def isZeroBits (b : Nat) : Bool :=
+  match decode b with
+  | .fin _ 0 _ => true
+  | _ => false
+
+/-- `vm_binop(op)` fast path: `x1 op x2` -/
+def numBinop (N : NumOps) (oper : String) (a b : Nat) : Nat :=
+  match oper with
+  | "+" => N.add a b
+  | "-" => N.sub a b
+  | "*" => N.mul a b
+  | "/" => N.div a b
+  | _ => 0x7ff8000000000000
+
+/-- `JOP_DIVIDE_FLOOR` fast path: `floor(x1 / x2)` (shape asserted by the translator) -/
+def numDivFloor (N : NumOps) (a b : Nat) : Nat := N.floor (N.div a b)
+
+/-- `JOP_MODULO` fast path: `x2 == 0 ? x1 : x1 - x2 * floor(x1 / x2)` (shape asserted by the translator) -/
+def numModulo (N : NumOps) (a b : Nat) : Nat :=
+  if isZeroBits b then a else N.sub a (N.mul b (N.floor (N.div a b)))
+
+/-- `JOP_REMAINDER` fast path: `fmod(x1, x2)` (shape asserted by the translator) -/
+def numRemainder (N : NumOps) (a b : Nat) : Nat := N.fmod a b
 
 def checkIntRange (d : Dbl) : Option Int :=
   match d.toInt? with
@@ -389,7 +463,12 @@ def vmOp (c : Cfg) (N : NumOps) (template oper : String) (x y : Val) : Res Val :
   match template with
   | "binop" | "divfloor" | "modulo" | "remainder" =>
     (match isNum x, isNum y with
-     | some a, some b => .ok (.num (N.arith oper a b))
+     | some a, some b =>
+       .ok (.num (match template with
+                  | "divfloor" => numDivFloor N a b
+                  | "modulo" => numModulo N a b
+                  | "remainder" => numRemainder N a b
+                  | _ => numBinop N oper a b))
      | _, _ => binopCall c oper ("r" ++ oper) x y)
   | "bitop" | "bitopu" =>
     (match isNum x, isNum y with
@@ -445,6 +524,26 @@ def polyCompare (c : Cfg) (x y : Val) : Res Val :=
   | some (k, f) =>
     (callCfun2 c k f x y).bind (fun r => match r with | .nil => tryRight | v => .ok v)
 
+/-- the "Main loop" of `templatize_varop`: accum = accum op args[i], left to right -/
+def varopFold (c : Cfg) (N : NumOps) (tmpl oper : String) : Res Val → List Val → Res Val
+  | acc, [] => acc
+  | acc, z :: rest =>
+    match acc with
+    | .ok a => varopFold c N tmpl oper (vmOp c N tmpl oper a z) rest
+    | .err e => .err e
+    | .ub => .ub
+
+/-- the loop of `templatize_comparator`: every adjacent pair must satisfy the comparison -/
+def comparatorLoop (step : Val → Val → Res Val) (invert : Bool) : Val → List Val → Res Val
+  | _, [] => .ok (.bool (!invert))
+  | last, next :: rest =>
+    match step last next with
+    | .ok (.bool true) => comparatorLoop step invert next rest
+    | .ok (.bool false) => .ok (.bool invert)
+    | .ok v => .ok v          -- `.unspec`
+    | .err e => .err e
+    | .ub => .ub
+
 def evalFn (c : Cfg) (N : NumOps) (fn : String) (args : List Val) : Res Val :=
   match fn, args with
   | "compare", [x, y] => polyCompare c x y
@@ -464,18 +563,27 @@ def evalFn (c : Cfg) (N : NumOps) (fn : String) (args : List Val) : Res Val :=
       if kind == "varop" then
         match vmOpOf opcode, args with
         | some (tmpl, oper), [x] => vmOp c N tmpl oper (Val.ofInt unary) x
-        | some (tmpl, oper), [x, y] => vmOp c N tmpl oper x y
+        | some (tmpl, oper), x :: y :: rest => varopFold c N tmpl oper (vmOp c N tmpl oper x y) rest
         | _, _ => .err .arity
       else
         -- comparators: nullary field is the invert flag
         match args with
-        | [_] => .ok (.bool (nullary == 0))
-        | [x, y] =>
-          if opcode == "JOP_EQUALS" then .ok (.bool ((janetEquals x y) != (nullary != 0)))
-          else
-            (match vmOpOf opcode with
-             | some (tmpl, oper) => vmOp c N tmpl oper x y
-             | none => .err .nomethod)
-        | _ => .err .arity
+        | [] => .err .arity
+        | x :: rest =>
+          let step : Val → Val → Res Val :=
+            if opcode == "JOP_EQUALS" then fun a b => .ok (.bool (janetEquals a b))
+            else match vmOpOf opcode with
+                 | some (tmpl, oper) => fun a b => vmOp c N tmpl oper a b
+                 | none => fun _ _ => .err .nomethod
+          comparatorLoop step (nullary != 0) x rest
+
+/-- `(:name a0 a1 ...)`: method call through a keyword (`resolve_method`, then the cfunction with all arguments) -/
+def methodCall (c : Cfg) (name : String) (args : List Val) : Res Val :=
+  match args with
+  | [] => .err .arity
+  | a0 :: _ =>
+    match methodOf a0 name with
+    | some (k, f) => (match args with | [x] => callCfun1 k f x | _ => callCfunN c k f args)
+    | none => .err .nomethod
 
 end JanetModel.Int64
